@@ -100,7 +100,14 @@ func (c *queueClass_[V]) MakeFromArray(values []V) QueueLike[V] {
 }
 
 func (c *queueClass_[V]) MakeFromSequence(values Sequential[V]) QueueLike[V] {
-	var queue = c.Make()
+	// The capacity must be able to hold all of the initial values, otherwise
+	// adding them would block on the new queue itself.
+	var capacity = c.defaultCapacity_
+	var size = uint(values.GetSize())
+	if size > capacity {
+		capacity = size
+	}
+	var queue = c.MakeWithCapacity(capacity)
 	var iterator = values.GetIterator()
 	for iterator.HasNext() {
 		var value = iterator.GetNext()
